@@ -849,6 +849,13 @@ func (e *evalEnv) evalCall(n *ast.CallExpr) Value {
 			case "base":
 				v := e.eval(n.Args[0])
 				return Value{T: types.Typ[types.UnsafePointer], L: []*Term{v.L[0]}}
+			case "off":
+				// off(x): the start of slice x within its backing array
+				v := e.eval(n.Args[0])
+				if len(v.L) < 4 {
+					e.fail(n, "off() needs a slice")
+				}
+				return Value{T: types.Typ[types.Int], L: []*Term{v.L[1]}}
 			case "ref":
 				// ref(x): the object identity behind a pointer or an interface value, as an int
 				v := e.eval(n.Args[0])
